@@ -82,21 +82,42 @@ def utf8_references_agree():
             if (verdict == 'valid') != (py == 'valid'):
                 return False, 'disagree on %r: table=%s cpython=%s' % (
                     s, verdict, py)
-            # incremental decoder: first failing byte index must agree
+            # fail index, second definition: the first i such that no
+            # completion of s[:i+1] decodes under CPython's strict decoder
             if verdict == 'invalid':
                 idx = peer.utf8_scan(s)[1]
-                dec = codecs.getincrementaldecoder('utf-8')()
                 fail = None
                 for j in range(len(s)):
-                    try:
-                        dec.decode(s[j:j + 1])
-                    except UnicodeDecodeError:
+                    if not _completable(s[:j + 1]):
                         fail = j
                         break
-                if fail is None or fail != idx:
+                if fail != idx:
                     return False, 'fail index differs on %r: table=%s ' \
                         'cpython=%s' % (s, idx, fail)
+            elif verdict == 'incomplete':
+                if not _completable(s):
+                    return False, 'table says incomplete, no completion: %r' \
+                        % (s,)
     return True, '%d strings' % n
+
+
+_EXTS = None
+
+
+def _completable(prefix):
+    global _EXTS
+    import itertools
+    if _EXTS is None:
+        c = [0x80, 0x8F, 0x90, 0x9F, 0xA0, 0xBF]
+        _EXTS = [bytes(t) for k in range(4)
+                 for t in itertools.product(c, repeat=k)]
+    for ext in _EXTS:
+        try:
+            (prefix + ext).decode('utf-8')
+            return True
+        except UnicodeDecodeError:
+            pass
+    return False
 
 
 def _prefix_ok(s):
